@@ -62,14 +62,22 @@ func syncConcurrent(rng *rand.Rand, nops int) int {
 			defer wg.Done()
 			defer done[g].Store(true)
 			r := rand.New(rand.NewSource(seed))
-			name := fmt.Sprintf("g%d", g+1)
+			// owner strings name the operation kind, not the goroutine (as store.go does), so
+			// two goroutines regularly present the same owner
+			owners := []string{"A", "B"}
+			name := owners[r.Intn(2)]
 			casHeld, reads, write := false, 0, false
 			var chans []<-chan struct{}
 			for i := 0; i < nops; i++ {
+				if !casHeld && !write {
+					name = owners[r.Intn(2)]
+				}
 				switch r.Intn(16) {
 				case 0, 1:
-					if !casHeld && cas.Begin(name) == nil {
-						casHeld = true
+					if !casHeld {
+						ok := cas.Begin(name) == nil
+						emit("cas", "ret", "op", "cas.begin", "owner", name, "ok", ok)
+						casHeld = ok
 					}
 				case 2:
 					if casHeld {
@@ -77,13 +85,18 @@ func syncConcurrent(rng *rand.Rand, nops int) int {
 						casHeld = false
 					}
 				case 3, 4:
-					if !write && mrsw.BeginRead() == nil {
-						reads++
+					if !write {
+						ok := mrsw.BeginRead() == nil
+						emit("mrsw", "ret", "op", "mrsw.bread", "owner", "anon", "ok", ok)
+						if ok {
+							reads++
+						}
 					}
 				case 5:
 					if !write {
 						blocked[g].Store("r")
 						mrsw.BeginReadBlocking()
+						emit("mrsw", "ret", "op", "mrsw.breadb", "owner", "anon", "ok", true)
 						blocked[g].Store("")
 						reads++
 					}
@@ -93,13 +106,16 @@ func syncConcurrent(rng *rand.Rand, nops int) int {
 						reads--
 					}
 				case 8:
-					if !write && reads == 0 && mrsw.BeginWrite(name) == nil {
-						write = true
+					if !write && reads == 0 {
+						ok := mrsw.BeginWrite(name) == nil
+						emit("mrsw", "ret", "op", "mrsw.bwrite", "owner", name, "ok", ok)
+						write = ok
 					}
 				case 9:
 					if !write && reads == 0 {
 						blocked[g].Store("w")
 						mrsw.BeginWriteBlocking(name)
+						emit("mrsw", "ret", "op", "mrsw.bwriteb", "owner", name, "ok", true)
 						blocked[g].Store("")
 						write = true
 					}
@@ -110,7 +126,9 @@ func syncConcurrent(rng *rand.Rand, nops int) int {
 					}
 				case 11:
 					if reads == 1 && !write {
-						if mrsw.UpgradeToWriter(name) == nil {
+						ok := mrsw.UpgradeToWriter(name) == nil
+						emit("mrsw", "ret", "op", "mrsw.upgrade", "owner", name, "ok", ok)
+						if ok {
 							reads, write = 0, true
 						}
 					}
